@@ -402,6 +402,19 @@ func execute(r *core.Run, c *Case, routes bool) {
 	})
 	if p != nil {
 		r.Count("panicked", 1)
+		conforming := true
+		for _, s := range c.Items {
+			name := s[:strings.LastIndex(s, "@")]
+			for _, it := range catalogue {
+				if it.name == name && !it.benign {
+					conforming = false
+				}
+			}
+		}
+		if conforming {
+			// a conforming chain must be ACCEPTED: a crash is not that
+			r.Violation("conforming-chain-panicked", c.desc()+": validating a conforming chain panicked: "+p.Value, c)
+		}
 		return
 	}
 	got = verr == nil
